@@ -22,6 +22,7 @@ EXPLANATION = (
     "alone, so preparsed == new downstream; the leading/trailing C0-control-or-space trimming of the URL "
     "parser is intact."
     " Later additions: the registrable domain comes from addr's parse of the same host (registry rules first, plain DNS-name rules only after an illegal-character / label-shape rejection, never for numeric hosts; addr 0.15.6 pinned); third-party compares the two domains without trailing dots; both authority scanners end at `/`, `?`, `#` and, for special schemes, at a backslash."
+    ' Round 8: parse_userinfo continues behind the `@` whenever one was found (empty userinfo included); the request type check_options reads is the derived one (C03.3 borrowed).'
 )
 NOT_DECIDED = ("That addr's public-suffix answer is right and that the reported hostname equals WHATWG host "
                "parsing (value level, dependency).")
